@@ -111,27 +111,28 @@ Proof. repeat split; vm_compute; reflexivity. Qed.
 Lemma evOK_sound : sound 1 chain2 evOK.
 Proof.
   split; [|reflexivity]. unfold double_sign. repeat (split; [vm_compute; reflexivity|]).
-  exists vals4, {| val_addr := 4; val_power := 10 |}.
+  exists vals4, {| val_addr := 4; val_power := 10 |}, 3%N.
   repeat split; try (vm_compute; reflexivity). cbn. auto.
 Qed.
 
-(** (5) the validator index is not checked and not signed, but it is part of the evidence
-    bytes, hence of the hash and of the database key: the same two signed votes with another
-    index are "new" evidence after the first was committed. *)
+(** (5) the validator index is not signed, but it is part of the evidence bytes, hence of the
+    hash and of the database key: the same two signed votes with another index would be "new"
+    evidence after the first was committed.  Since commit be61253 VerifyDuplicateVote requires
+    both indices to be the validator's index in the set of that height. *)
 Definition evReplay : evidence :=
   {| e_hash := 501; e_size := 380; e_a := mkvote 7 4 2 1 1 110 bidX 1; e_b := voteY;
      e_total := 40; e_power := 10; e_time := 103 |}.
 
 Definition history_replay : list op :=
   [ OpPeer evOK; OpSaveMeta 3 106; OpSaveVals 3 vals4; OpApply 100 (st_at 3 106) [evOK];
-    OpPeer evReplay; OpSaveMeta 4 109; OpSaveVals 4 vals4; OpApply 100 (st_at 4 109) [evReplay] ].
+    OpPeer evReplay; OpBlock 100 [evReplay] ].
 
-Example replay_with_other_index_committed_again :
+Example replay_with_other_index_rejected :
   v_sig (e_a evReplay) = v_sig (e_a evOK) /\ v_sig (e_b evReplay) = v_sig (e_b evOK) /\
-  v_idx (e_a evReplay) <> v_idx (e_b evReplay) /\
-  map o_res (snd (run node0 history_replay)) = [ROk; ROk; ROk; ROk; ROk; ROk; ROk; ROk] /\
-  commit_log node0 history_replay = [(2, 500%N); (2, 501%N)].
-Proof. repeat split; try (vm_compute; reflexivity). vm_compute. discriminate. Qed.
+  map o_res (snd (run node0 history_replay)) =
+    [ROk; ROk; ROk; ROk; RInvalid VIndex; RInvalid VIndex] /\
+  commit_log node0 history_replay = [(2, 500%N)].
+Proof. repeat split; vm_compute; reflexivity. Qed.
 
 (** (6) AddEvidenceFromConsensus does not look at the committed family: if consensus handed
     over evidence that is already committed (excluded by [op_ok]), the fast path of
@@ -143,29 +144,30 @@ Example cons_of_committed_evidence_commits_twice :
   commit_log node0 history_cons = [(2, 500%N); (2, 500%N)].
 Proof. vm_compute. reflexivity. Qed.
 
-(** (7) the proposer's byte cap with the default parameters: MaxEvidencePerBlock's first
-    result (a count) is used as PendingEvidence's maxBytes; one evidence of 380 bytes does not
-    fit in 216, so nothing is proposed although the block's evidence budget is 104857 bytes *)
+(** (7) the proposer's byte cap with the default parameters (commit e536522: the byte
+    result of MaxEvidencePerBlock, 104857; before, the count 216 was passed and an evidence of
+    380 bytes never fitted) *)
 Example default_proposer_cap :
-  default_proposal_pending_cap = 216 /\ default_proposal_evidence_budget = 104857 /\
+  default_proposal_evidence_count = 216 /\ default_proposal_pending_cap = 104857 /\
   let p := fst (peer_evidence (empty_pool (st_at 2 103)) chain2 evOK) in
   p_pending p = [evOK] /\
-  fst (pending_evidence p default_proposal_pending_cap) = [] /\
-  fst (pending_evidence p default_proposal_evidence_budget) = [evOK].
+  fst (pending_evidence p default_proposal_evidence_count) = [] /\
+  fst (pending_evidence p default_proposal_pending_cap) = [evOK].
 Proof. repeat split; vm_compute; reflexivity. Qed.
 
-(** (8) lazy pruning: evidence that has expired but is still in the pending family passes
-    CheckEvidence (fast path) at the node that holds it and is rejected as expired elsewhere *)
+(** (8) lazy pruning: evidence that has expired but is still in the pending family; since
+    commit 7b4a6e2 the fast path of CheckEvidence applies the expiry rule too, so the node that
+    holds it and the node that does not agree *)
 Definition params_tiny : params := {| max_age_blocks := 1; max_age_dur := 5 |}.
 Definition st_tiny (h t : Z) : pstate := {| st_height := h; st_time := t; st_params := params_tiny; st_chain := 1 |}.
 Definition chain5 : chain :=
   {| ch_times := [(1, 100); (2, 103); (3, 120); (4, 140)];
      ch_vals := [(1, vals4); (2, vals4); (3, vals4); (4, vals4)] |}.
-Example expired_but_pending_accepted :
+Example expired_but_pending_rejected :
   let holder := fst (update (fst (update (fst (peer_evidence (empty_pool (st_tiny 2 103)) chain5 evOK))
                                          (st_tiny 3 120) [])) (st_tiny 4 140) []) in
   let fresh := empty_pool (st_tiny 4 140) in
   is_pending holder evOK = true /\
-  snd (check_evidence holder chain5 [evOK]) = ROk /\
+  snd (check_evidence holder chain5 [evOK]) = RInvalid VExpired /\
   snd (check_evidence fresh chain5 [evOK]) = RInvalid VExpired.
 Proof. repeat split; vm_compute; reflexivity. Qed.
